@@ -47,6 +47,9 @@ AnBReasons(r) ==
           ELSE LET p == AnBP(r.s) IN
                IF p.ok # r.accepted THEN {<<"anb-accept", "">>}
                ELSE IF p.ok /\ ToSet(r.matched) # { i \in 1..12 : SelectP(p.a, p.b, i) } THEN {<<"anb-select", "">>}
+               \* with an ofRule that every sibling satisfies (the unnamed commas and brackets too) the index still counts the
+               \* named siblings only
+               ELSE IF p.ok /\ ToSet(r.matched_of) # { i \in 1..12 : SelectP(p.a, p.b, i) } THEN {<<"anb-select-with-ofrule", "">>}
                ELSE {})
 AnBDrift(r) ==
     LET i == ParseAnB(r.s) IN
